@@ -443,3 +443,14 @@ func (s *Server) KillOpenTransactions() []int {
 	sort.Ints(ids)
 	return ids
 }
+
+// XABranches returns the state (ACTIVE IDLE PREPARED) of every XA branch the server still knows.
+func (s *Server) XABranches() map[string]string {
+	s.mu.Lock()
+	defer s.mu.Unlock()
+	out := map[string]string{}
+	for id, t := range s.xa {
+		out[id] = t.xaState
+	}
+	return out
+}
